@@ -102,10 +102,14 @@ func vfFloat(tag string) float64 {
 	return 0
 }
 
+var vfMissingN int
+
 func vfIRI(tag string) string {
 	v, ok := vfNext(tag)
 	if !ok {
-		return "https://missing.example/" + tag
+		// beyond the recorded run (e.g. a non-terminating recursion): keep producing fresh ids
+		vfMissingN++
+		return fmt.Sprintf("https://missing.example/%s/%d", tag, vfMissingN)
 	}
 	s, _ := v.(string)
 	return s
@@ -149,6 +153,7 @@ func vfAssert(c bool, label string) {
 func vfCover(label string)  {}
 func vfNote(note string)    {}
 func vfAllowPanic(b bool)   {}
+func vfHangCheck(b bool)    {}
 func vfYield()              {}
 func vfThreads(mode int)    {}
 func vfLog(a ...interface{}) { fmt.Println(a...) }
@@ -169,10 +174,39 @@ func vfUFBool(name, arg string) bool {
 	return b
 }
 
+// vfUFDefault: for an argument the recorded run never asked about, continue with the
+// value this function took most often in the recorded run.
+func vfUFDefault(name string) (interface{}, bool) {
+	count := map[string]int{}
+	vals := map[string]interface{}{}
+	prefix := "uf:" + name + ":"
+	for k, v := range vfTape.Values {
+		if len(k) > len(prefix) && k[:len(prefix)] == prefix {
+			s := fmt.Sprint(v)
+			count[s]++
+			vals[s] = v
+		}
+	}
+	best, bn := "", 0
+	for s, n := range count {
+		if n > bn || (n == bn && s < best) {
+			best, bn = s, n
+		}
+	}
+	if bn == 0 {
+		return nil, false
+	}
+	return vals[best], true
+}
+
 func vfUFInt(name, arg string, lo, hi int) int {
 	v, ok := vfTape.Values["uf:"+name+":"+arg]
 	if !ok {
 		vfMissing = append(vfMissing, "uf:"+name+":"+arg)
+		if d, ok := vfUFDefault(name); ok {
+			f, _ := d.(float64)
+			return int(f)
+		}
 		return lo
 	}
 	f, _ := v.(float64)
